@@ -4,6 +4,7 @@ parser and that short datagrams are refused rather than read past the end."""
 import z3
 from vf.pyvc.spec import contract, Loop
 from vf.pyvc.values import *
+from vf.pyvc import values as VV
 from vf.pyvc.engine import Raised
 
 F = 'sc3/base/_osclib.py'
@@ -198,3 +199,221 @@ contract(F, 'get_blob', props=('C18', 'C06'),
          note='byte contents are abstract (no native replay: a counter-model does not say which bytes '
               'encode the count); get_int through its proved contract; the PADDING may lie beyond the end of the datagram '
               '(python-osc leniency, accepted by the statement: "sized correctly" is about the writer)')
+
+
+# ---- OscMessage._parse_datagram: the decoder of one message (C06 round trip, C18 incoming messages) ------------------
+# the address string is read at 0; nothing after it: a message without arguments; else the type tag string is read
+# where the address ended (a leading ',' dropped), and for EVERY tag character in order:
+#   i f d s b r m t   the decoder of THAT type is called once at the CURRENT position, the position moves to where it
+#                     says, and the value is appended to the innermost open list;
+#   T F               True / False appended, position unchanged;
+#   [                 a new list is appended to the innermost open list and becomes the innermost one;
+#   ]                 the innermost list is closed (refused when none is open);
+#   anything else     skipped (logged), nothing appended, position unchanged;
+# at the end every opened list must be closed (else refused) and the outermost list is the message's parameters.
+NTAGS = z3.Int('type_tag.len')
+TCH = z3.Function('type_tag_char', z3.IntSort(), VV.Any)
+GETTERS = {'i': 'get_int', 'f': 'get_float', 'd': 'get_double', 's': 'get_string', 'b': 'get_blob', 'r': 'get_rgba',
+           'm': 'get_midi', 't': 'get_timetag'}
+DEPTH = 'stack.depth'
+
+
+def tag_seq(lo):
+    return V('seq', extra={'len': z3.If(NTAGS - lo > 0, NTAGS - lo, 0), 'tag_string': lo,
+                           'get': (lambda e_, i, s_, _lo=lo: V('any', TCH(i + _lo)))})
+
+
+def pd_getter(name):
+    def pol(eng, selfv, args, kwargs, st, node):
+        ok, bad = st, st.fork()
+        idx = args[1]
+        n = next(eng.counter)
+        nxt = vint(z3.Int('index_after_%s!%d' % (name, n)))
+        if name == 'get_string' and not [e for e in st.trace if e[0] == 'get' and e[1] == 'get_string']:
+            val = V('obj', oid='the-address')
+        elif name == 'get_string' and len([e for e in st.trace if e[0] == 'get' and e[1] == 'get_string']) == 1 \
+                and not [e for e in st.trace if e[0] == 'loop-head']:
+            val = tag_seq(z3.IntVal(0))
+        else:
+            val = V('obj', oid='decoded!%d' % n)
+        if idx.k == 'int':
+            ok.pc.append(nxt.z >= idx.z)             # a decoder never moves backwards (index laws of get_*: above)
+        ok.trace.append(('get', name, args[0], idx, val, nxt))
+        bad.trace.append(('get-refused', name))
+        return [(ok, vtuple([val, nxt])), (bad, Raised(eng.make_exc('OscTypeParseError', node=node)))]
+    return pol
+
+
+def pd_getattr(eng, obj, name, st, node):
+    if obj.k == 'seq' and 'tag_string' in obj.extra and name == 'startswith':
+        def sw(eng, a, kw, st, node):
+            return [(st, vbool(z3.And(NTAGS >= 1, eng.str_is(',')(TCH(0)), VV.tag_of(TCH(0)) == TAGS['str'])))]
+        return [(st, V('func', py=('spec', sw)))]
+    if obj.k == 'ref' and obj.cls == 'PList' and name == 'append':
+        def app(eng, a, kw, st, node, _o=obj):
+            st.trace.append(('append', _o, a[0]))
+            return [(st, NONE)]
+        return [(st, V('func', py=('spec', app)))]
+    if obj.k == 'ref' and obj.cls == 'PStack':
+        if name == 'append':
+            def push(eng, a, kw, st, node):
+                d = st.objs.setdefault('the-stack', {}).get('depth') or vint(z3.Int(DEPTH))
+                st.objs['the-stack']['depth'] = vint(d.z + 1)
+                st.objs['the-stack']['top'] = a[0]
+                st.trace.append(('push', a[0]))
+                return [(st, NONE)]
+            return [(st, V('func', py=('spec', push)))]
+        if name == 'pop':
+            def pop(eng, a, kw, st, node):
+                d = st.objs.setdefault('the-stack', {}).get('depth') or vint(z3.Int(DEPTH))
+                st.objs['the-stack']['depth'] = vint(d.z - 1)
+                st.objs['the-stack']['top'] = V('ref', cls='PList', oid='list-below!%d' % next(eng.counter))
+                st.trace.append(('pop',))
+                return [(st, NONE)]
+            return [(st, V('func', py=('spec', pop)))]
+    return None
+
+
+def pd_new_list(eng, items, st):
+    if items == []:
+        n = len([e for e in st.trace if e[0] == 'new-plist'])
+        r = V('ref', cls='PList', oid='params' if n == 0 else 'array!%d' % next(eng.counter))
+        st.trace.append(('new-plist', r))
+        return r
+    if len(items) == 1 and items[0].k == 'ref' and items[0].cls == 'PList' and items[0].oid == 'params':
+        st.objs.setdefault('the-stack', {})['depth'] = vint(1)
+        st.objs['the-stack']['top'] = items[0]
+        return V('ref', cls='PStack', oid='the-stack')
+    return None
+
+
+def pd_getitem(eng, obj, idx, st, node):
+    if obj.k == 'ref' and obj.cls == 'PStack' and idx.k == 'int' and z3.is_int_value(z3.simplify(idx.z)) \
+            and z3.simplify(idx.z).as_long() == -1:
+        top = st.objs.get('the-stack', {}).get('top')
+        return [(st, top if top is not None else V('ref', cls='PList', oid='top-at-head'))]
+    return None
+
+
+def pd_len(eng, v, st, node):
+    if v.k == 'ref' and v.cls == 'PStack':
+        d = st.objs.get('the-stack', {}).get('depth') or vint(z3.Int(DEPTH))
+        return [(st, d)]
+    return None
+
+
+def pd_contains(eng, container, item, st, node):
+    if container.k == 'str' and container.py and item.k == 'any':
+        return z3.And(VV.tag_of(item.z) == TAGS['str'], z3.Or(*[eng.str_is(ch)(item.z) for ch in container.py]))
+    return None
+
+
+def pd_remember(eng, st):
+    st.ghost = dict(st.ghost)
+    st.ghost['index_at_head'] = st.env['index'].z
+    st.objs.setdefault('the-stack', {})['depth'] = vint(z3.Int('depth@head!%d' % next(eng.counter)))
+    st.objs['the-stack']['top'] = V('ref', cls='PList', oid='top-at-head')
+    st.ghost['depth_at_head'] = st.objs['the-stack']['depth'].z
+    st.pc.append(st.ghost['depth_at_head'] >= 1)
+
+
+def pd_since(trace):
+    idx = -1
+    for i, e in enumerate(trace):
+        if e[0] == 'loop-head':
+            idx = i
+    return trace[idx + 1:] if idx >= 0 else []
+
+
+def pd_pass(c, L):
+    eng = c._eng
+    depth = c.st.objs.get('the-stack', {}).get('depth')
+    if depth is None:
+        return z3.BoolVal(False)
+    base = z3.And(L.index >= 0, depth.z >= 1)
+    if L.phase != 'after':
+        return base
+    ev = [e for e in pd_since(c.trace) if e[0] in ('get', 'append', 'push', 'pop', 'new-plist')]
+    k = L.i - 1
+    lo = c.st.ghost.get('tag_lo')
+    ch = TCH(k + (lo if lo is not None else 0))
+    i0, d0 = c.st.ghost['index_at_head'], c.st.ghost['depth_at_head']
+
+    def is_(t):
+        return z3.And(VV.tag_of(ch) == TAGS['str'], eng.str_is(t)(ch))
+    kinds = [e[0] for e in ev]
+    top_head = lambda v: v.k == 'ref' and v.oid == 'top-at-head'
+    if kinds == ['get', 'append']:
+        g, a = ev
+        tags = [t for t, n in GETTERS.items() if n == g[1]]
+        ok = len(tags) == 1 and g[2].k == 'bytes' and g[3].k == 'int' and top_head(a[1]) and a[2] is g[4]
+        if not ok:
+            return z3.BoolVal(False)
+        return z3.And(base, is_(tags[0]), g[3].z == i0, L.index == g[5].z, depth.z == d0)    # right decoder, at the current position
+    if kinds == ['append']:
+        a = ev[0]
+        if not top_head(a[1]) or a[2].k != 'bool':
+            return z3.BoolVal(False)
+        return z3.And(base, z3.If(a[2].z, is_('T'), is_('F')), L.index == i0, depth.z == d0)
+    if kinds == ['new-plist', 'append', 'push']:
+        n, a, p = ev
+        ok = top_head(a[1]) and a[2] is n[1] and p[1] is n[1]
+        return z3.And(base, z3.BoolVal(bool(ok)), is_('['), L.index == i0, depth.z == d0 + 1)
+    if kinds == ['pop']:
+        return z3.And(base, is_(']'), d0 >= 2, L.index == i0, depth.z == d0 - 1)
+    if kinds == []:
+        known = z3.Or(*[is_(t) for t in list(GETTERS) + ['T', 'F', '[', ']']])
+        return z3.And(base, z3.Not(known), L.index == i0, depth.z == d0)                   # an unknown tag: skipped
+    return z3.BoolVal(False)
+
+
+def pd_over(c, sq, k, elem):
+    lo = sq.extra.get('tag_string')
+    so = sq.extra.get('slice_of')
+    if lo is None and so is not None and 'tag_string' in so[0]:
+        lo = so[1]
+    if lo is None or elem.k != 'any':
+        return z3.BoolVal(False), z3.BoolVal(False)
+    c.st.ghost = dict(c.st.ghost)
+    c.st.ghost['tag_lo'] = lo
+    comma = z3.And(NTAGS >= 1, VV.tag_of(TCH(0)) == TAGS['str'], c._eng.str_is(',')(TCH(0)))
+    return (z3.And(lo == z3.If(comma, 1, 0), sq.extra['len'] == z3.If(NTAGS - lo > 0, NTAGS - lo, 0)),
+            elem.z == TCH(k + lo))                                                          # every tag after the leading comma
+
+
+def pd_post(c):
+    gets = [e for e in c.trace if e[0] == 'get']
+    heads = [e for e in c.trace if e[0] == 'loop-head']
+    me = c.post.self
+    ok_addr = (gets and gets[0][1] == 'get_string' and gets[0][3].k == 'int'
+               and me.v('_address_regexp').k == 'obj' and me.v('_address_regexp').oid == 'the-address')
+    if not ok_addr:
+        return z3.BoolVal(False)
+    cl = [gets[0][3].z == 0]                                                               # the address is read at 0
+    if not heads:
+        return z3.And(*cl, z3.BoolVal(len(gets) == 1))                                     # nothing after the address
+    second = gets[1] if len(gets) > 1 else None
+    if second is None or second[1] != 'get_string' or second[3].k != 'int':
+        return z3.BoolVal(False)
+    depth = c.st.objs.get('the-stack', {}).get('depth')
+    pv = me.v('_parameters')
+    cl += [second[3].z == gets[0][5].z,                                                    # the tag string where the address ended
+           depth.z == 1,                                                                    # every opened list was closed
+           z3.BoolVal(pv.k == 'ref' and pv.oid == 'params')]                                # the outermost list
+    return z3.And(*cl)
+
+
+PD_POL = {n: pd_getter(n) for n in set(GETTERS.values())}
+contract(F, 'OscMessage._parse_datagram', props=('C06', 'C18'), params={'self': 'self'},
+         raises={'OscMessageParseError': None},
+         ensures=[('address-at-0,tag-string-after-it,every-open-list-closed,parameters=the-outermost-list', pd_post)],
+         loops={0: Loop(inv=pd_pass, over=pd_over, kinds={'index': 'int', 'val': (lambda e, n: V('obj', oid='havoc')),
+                                                          'param': 'any', 'array': (lambda e, n: V('obj', oid='havoc'))},
+                        havoc_hook=pd_remember)},
+         fields={'OscMessage': {'_dgram': 'bytes', '_address_regexp': 'obj', '_parameters': 'obj'}, 'PList': {}, 'PStack': {}},
+         class_modules={'OscMessage': F, 'PList': F, 'PStack': F},
+         hooks={'getattr': pd_getattr, 'new_list': pd_new_list, 'getitem': pd_getitem, 'len': pd_len,
+                'contains': pd_contains},
+         policies=PD_POL, native=False,
+         note='the type tag string is a sequence of abstract characters; the decoders get_* are ghost calls that return '
+              '(value, next position) or refuse (their index laws: above); the list stack is a ghost depth + top')
